@@ -275,6 +275,7 @@ fn soup_strategy(nsnip: usize, max: usize) -> impl Strategy<Value = Soup> {
 }
 
 pub fn run(ctx: &Ctx) {
+    run_fuzz_raw(ctx, fuzz_entry);
     ctx.rule("inputs = token soups over every installed primitive, user macros, braces, #, numbers at and beyond every limit, units and keywords, ^^ forms, non-ASCII characters, newlines, file names (existing, missing, with an area), interleaved with ~100 snippet programs (the stdlib's own error cases and one valid use of every primitive family), optionally truncated at any byte, under a mode prefix (default/errorstop/scroll/nonstop/batch); run under catch_unwind in a VM with an in-memory file system and a scripted terminal: Ok, or an error that renders to non-empty text and whose traces have line>=1 and column<=line length; any panic is a violation. non-trivial = at least 2 soup elements and the run ended in an error or recovered from one; distinct by input text");
     ctx.assume("\\sleep, \\dumpFormat, \\dumpValidate are not installed (they sleep / write files); \\newIntArray only appears in snippets with small sizes (it allocates what it is told to)");
     ctx.assume("programs that exceed the expansion budget (3000 expansions) are cut off and counted as skipped, as the property says");
@@ -306,4 +307,18 @@ pub fn run(ctx: &Ctx) {
         },
         |s: &Soup, case| oracle(ctx, s, &vocab, &snips, case),
     );
+}
+
+
+/// Entry point shared by the libFuzzer target and the `fuzz_raw` replay sub-check: the first byte
+/// selects the interaction mode prefix.
+pub fn fuzz_entry(ctx: &Ctx, data: &[u8]) -> Verdict {
+    let Some((sel, rest)) = data.split_first() else { return Verdict::pass(false) };
+    let mode = ["", "\\errorstopmode ", "\\scrollmode ", "\\nonstopmode ", "\\batchmode "][(*sel % 5) as usize];
+    let text = format!("{}{}", mode, String::from_utf8_lossy(rest));
+    // \newIntArray allocates what it is told to: keep it out of fuzz inputs
+    if text.contains("newIntArray") {
+        return Verdict::Skip("\\newIntArray in a fuzz input");
+    }
+    oracle_text(ctx, text, 2, &mut Case::default())
 }
